@@ -2,6 +2,7 @@ import XeofsProofs.Bridge
 import XeofsProofs.Lemmas.Rot
 import XeofsProofs.Lemmas.Misc13
 import XeofsProofs.Props.C15
+import XeofsModel.Generated.Facts
 /-!
 # C11 — rotation re-expresses the retained subspace without changing what it represents
 
@@ -79,5 +80,8 @@ theorem src_inverse_transpose_guard (power : Int) :
 
 theorem src_rotator_norm (ev nn : ℝ) : Gen.rotatorNorm ev nn = Real.sqrt (ev * (nn - 1)) := by
   simp [Gen.rotatorNorm, Num.sqrt]
+
+/-- source obligation for `rot_sorted` after a refit: every rotator fit clears the flag that guards the re-sorting -/
+theorem src_rotator_fit_resets_sorted : Gen.eofRotatorFitResetsSorted = true ∧ Gen.cpccaRotatorFitResetsSorted = true := by decide
 
 end C11
